@@ -330,6 +330,21 @@ def _run_history(name, row, hid, key, tag, specs, kwtwin, sample_shape=None, ops
                 results = []
                 H.last_error = repr(ex)[:300]
                 break
+        # closure forms dist(*args) / dist(**kwargs) (the syntax used inside @gen functions), same key
+        if status == "ok" and True in use and extra is None and op in ("simulate", "assess") and specs[a1][0] == "pos":
+            try:
+                with warnings.catch_warnings():
+                    warnings.simplefilter("ignore")
+                    for clo in (dist(*args_of(a1, False)), dist(**args_of(a1, True)[1])):
+                        if op == "simulate":
+                            results.append(obs(clo.simulate(key, ())))
+                        else:
+                            s_, r_ = clo.assess(ChoiceMap.choice(H.valobj[cur["v"]]), ())
+                            results.append(dict(v1=H.vid(r_), s1=_fx(s_), w=0, disc=0, dt="", shp=[]))
+            except Exception as ex:
+                status = "raised:" + type(ex).__name__
+                results = []
+                H.last_error = "closure form: " + repr(ex)[:280]
         lop = {"importance": "generate", "trupdate": "update"}.get(op, op)
         emit(lop, cons, sel, a1, vc_id, fresh, results, status)
         if status != "ok":
